@@ -2,6 +2,7 @@ import RtcModel.C15Rtp
 import RtcModel.C15Ext
 import RtcModel.C15Rtcp
 import RtcModel.C15NackBuf
+import RtcModel.C15Apt
 import RtcModel.Drv.Util
 namespace RtcModel.Drv.C15
 open RtcModel.C15 RtcModel.Drv
@@ -145,6 +146,17 @@ def showGapOut : Option (List UInt16) → String
   | none => "n"
   | some xs => "k" ++ showList (xs.map (toString ·.toNat)) ";"
 
+def attr? (s : String) : Option (Bytes × Option Bytes) :=
+  match s.splitOn "=" with
+  | [k] => do some (← unhex k, none)
+  | [k, v] => do some (← unhex k, some (← unhex v))
+  | _ => none
+
+/-- insertion sort by RTX payload type, for a canonical rendering of the map -/
+def insertPt (x : UInt8 × UInt8) : List (UInt8 × UInt8) → List (UInt8 × UInt8)
+  | [] => [x]
+  | y :: ys => if x.1.toNat ≤ y.1.toNat then x :: y :: ys else y :: insertPt x ys
+
 /-! ### dispatch -/
 
 def handleRtpParse (hx : String) : String :=
@@ -218,6 +230,15 @@ def handle (stream : String) (args : List String) : String :=
     match pkt? t, u32? ssrc, u8? pt with
     | some p, some s, some y => (match unwrapRtx p s y with | none => "none" | some q => "some " ++ showPkt q)
     | _, _, _ => "bad-args"
+  | "apt", [hx] =>
+    match unhex hx with
+    | none => "bad-hex"
+    | some bs => (match parseApt bs with | none => "none" | some v => s!"some:{v.toNat}")
+  | "aptmap", toks =>
+    match mapM? attr? toks with
+    | none => "bad-args"
+    | some attrs =>
+      showList (((extractApt attrs []).foldr insertPt []).map fun (a, b) => s!"{a.toNat}:{b.toNat}") ";"
   | "is_rtcp", [hx] =>
     match unhex hx with
     | none => "bad-hex"
